@@ -616,6 +616,15 @@ def sec_kernels_are_distributions(rep):
     c03.sec_labels(rep)
 
 
+def sec_operator_construction(rep):
+    """The splitting-function operators the ln(muF) terms are built from are conv.convolve_operator of
+    the kernels: its structure contract (every entry is the convolution of basis function l at node k,
+    only the trivial corner is skipped) is C01's, re-discharged here."""
+    from . import c01
+
+    c01.sec_convolve_vector(rep)
+
+
 def sec_runner_wiring(rep):
     """Runner.__init__ hands the scale-variation manager the coefficient-function order of the card
     (PTODIS, not the evolution order PTO) and the two switches; the ESFs of the run share it."""
@@ -714,7 +723,7 @@ def run(rep, tier, seed, only=None):
         "one-node grid with formal operators: the code uses the operators only linearly (no operator x operator product is computed at run time), so the identities lift to every grid size",
     )
     rep.stub("eko.beta -> symbolic beta0/beta1", "conv.convolve_vector -> symbolic raw coefficients c_o", "Combiner -> one abstract kernel", "ScaleVariations.operators pre-filled with formal 1x1 operators (compute_raw's cache branch)")
-    for nm, f in (("tables", sec_tables), ("rge", sec_rge), ("rgeshared", sec_rge_shared), ("computeraw", sec_compute_raw), ("distributions", sec_kernels_are_distributions), ("switches", sec_switches), ("wiring", sec_runner_wiring), ("apply_pdf", sec_apply_pdf), ("labels", sec_label_moments)):
+    for nm, f in (("tables", sec_tables), ("rge", sec_rge), ("rgeshared", sec_rge_shared), ("computeraw", sec_compute_raw), ("operators", sec_operator_construction), ("distributions", sec_kernels_are_distributions), ("switches", sec_switches), ("wiring", sec_runner_wiring), ("apply_pdf", sec_apply_pdf), ("labels", sec_label_moments)):
         if only and only not in nm:
             continue
         rep.add(guarded(f"C05/{nm}", lambda f=f: (f(rep), [])[1]))
